@@ -21,8 +21,10 @@ def real_ecdh():
 
 def mk_other_curve(ex, F, W):
     """a second Curve object (another named curve): only its identity matters for the curve checks"""
-    return SObj(ex.convert(K.real_curves().Curve), {"name": "othercurve", "curve": SObj(W["curve"].cls, {}), "generator": None, "order": ex.fresh_int("order2"),
-                                                     "baselen": ex.fresh_int("baselen2")})
+    o = SObj(ex.convert(K.real_curves().Curve), {"name": "othercurve", "curve": SObj(W["curve"].cls, {}), "generator": None, "order": ex.fresh_int("order2"),
+                                                  "baselen": ex.fresh_int("baselen2")})
+    o.ghost["other_named_curve"] = True            # by construction not equal (by value) to the world's curve: Curve.__eq__ is False
+    return o
 
 
 def mk_keypair(ex, F, W, idx, curve=None):
